@@ -230,6 +230,16 @@ Proof. eexists. eexists. vm_compute. repeat split. discriminate. Qed.
    Batch/OrderCheck.v allowed_late_raises (a guard correlation the analysis does not follow;
    discharged dynamically by K);
    no handler ends with an uncommitted change; the placeholder is only set in a clean state. *)
+Theorem request_runs_under_the_engine_lock : process_request_locked /\ placeholder_reset_comes_first.
+Proof. exact (conj process_request_is_locked placeholder_reset_first). Qed.
+Print Assumptions request_runs_under_the_engine_lock.
+
+(* the response header announces exactly the results the response carries (model side of the header check of K) *)
+Theorem batch_count_is_number_of_results : forall st h its rs st',
+    process st h its = (inr rs, st') -> response_batch_count rs = Z.of_nat (List.length rs) /\ (List.length rs <= List.length its)%nat.
+Proof. intros st h its rs st' H. split; [reflexivity|]. exact (proj1 (results_prefix _ _ _ _ _ H)). Qed.
+Print Assumptions batch_count_is_number_of_results.
+
 Theorem every_raise_precedes_every_mutation_in_the_source :
   all_allowed (late_raises engine_methods operation_handlers) = true /\
   forallb (fun h => negb (ends_dirty_of engine_methods h)) operation_handlers = true /\
